@@ -32,6 +32,9 @@ var Solvers = []Solver{
 	{Name: "z3-5.1.0", Bin: "z3-new", Args: func(f string, t time.Duration) []string {
 		return []string{fmt.Sprintf("-T:%d", int(t.Seconds())+1), f}
 	}},
+	{Name: "z3-5.1.0/arith2", Bin: "z3-new", Args: func(f string, t time.Duration) []string {
+		return []string{fmt.Sprintf("-T:%d", int(t.Seconds())+1), "smt.arith.solver=2", "smt.mbqi=false", f}
+	}},
 	{Name: "cvc5-1.0.3", Bin: "cvc5", NeedsLogic: true, Args: func(f string, t time.Duration) []string {
 		return []string{"--lang=smt2", "--strings-exp", fmt.Sprintf("--tlimit=%d", t.Milliseconds()), f}
 	}},
